@@ -1,6 +1,6 @@
 """C05 - multi-source operators honour every arrival order (DESIGN 6/C05)."""
 import json
-import vlib, parts_multi, tracecheck
+import vlib, parts_multi, parts_subject, tracecheck
 
 PID = 'C05'
 
@@ -14,6 +14,9 @@ def main(argv):
     th = rep.tier == 'thorough'
     tracecheck.run(rep, PID, 'drive-multilin', 'MultiLin', 'MultiLin_x.cfg', 1500 if th else 400, [rep.seed * 100 + i for i in range(5 if th else 1)], 'multilin', comp_key='Op', dfs=True)
     tracecheck.run(rep, PID, 'drive-multilin', 'MultiLin', 'MultiLin_x.cfg', 120 if th else 30, [rep.seed * 100 + 50 + i for i in range(3 if th else 1)], 'multilin-park', comp_key='Op', extra=['-park'], dfs=True)
+    # the windows of WindowWhen and the groups of GroupBy are unicast subjects: a window / group subscribed while the source keeps notifying must
+    # deliver the queued backlog and the live values in one order (linearizability of the unicast subject, SubjectLin.tla, park mode)
+    parts_subject.lin_part(rep, PID, 40 if th else 12, [rep.seed * 100 + 60 + i for i in range(2 if th else 1)], park=True, kind='unicast')
     rep.cov['rule'] = ('TLC enumerates every behaviour of Multi.tla: for each multi-source operator instance (merge, combine-latest, zip, race, take/skip-until, '
                        'buffer/sample/throttle-when; creation and operator forms, 2 and 3 sources) every tuple of source scripts (values distinguishable per source; '
                        'completion, error or silence as ending) and EVERY interleaving of them, optionally an Unsubscribe at every position; each case is replayed '
@@ -26,6 +29,8 @@ def main(argv):
 
 def replay(path):
     vlib.build_harness()
+    if path.endswith('.ndjson') and 'subject-lin' in path:
+        return parts_subject.replay_lin(PID, path)
     if path.endswith('.ndjson'):
         return tracecheck.replay(PID, 'MultiLin', 'MultiLin_x.cfg', path, dfs=True)
     return parts_multi.replay_case(PID, path)
